@@ -8,6 +8,7 @@ import CedarVerif.Driver.Ops.Fmt
 import CedarVerif.Driver.Ops.Json
 import CedarVerif.Driver.Ops.Partial
 import CedarVerif.Driver.Ops.NoPanic
+import CedarVerif.Driver.Ops.Ffi
 /-
 Line-protocol driver: one request per line on stdin, one reply per line on stdout.
 Unknown or malformed requests answer `(bad-op)`; the driver never defaults.
@@ -26,7 +27,8 @@ def handlers : List (Sexp → Option String) := [
   Ops.handleFmt,
   Ops.handleJson,
   Ops.handlePartial,
-  Ops.handleNoPanic
+  Ops.handleNoPanic,
+  Ops.handleFfi
 ]
 
 def handle (x : Sexp) : String :=
